@@ -185,6 +185,14 @@ def check_lexer_pairing(run: Run) -> None:
             for i in ids:
                 for cond, pol in branch_conditions(cfg, i):
                     facts |= set(conjuncts(cond, pol))
+                    # a branch on a local bound once to a test stands for that test (`triple = text.startswith('"""') ... if triple:`)
+                    c0, p0 = cond, pol
+                    while isinstance(c0, ast.UnaryOp) and isinstance(c0.op, ast.Not):
+                        c0, p0 = c0.operand, not p0
+                    if isinstance(c0, ast.Name):
+                        defs0 = [a.value for a in walk_no_nested(fi.node) if isinstance(a, ast.Assign) and len(a.targets) == 1 and isinstance(a.targets[0], ast.Name) and a.targets[0].id == c0.id]
+                        if len(defs0) == 1:
+                            facts |= set(conjuncts(defs0[0], p0))
             val = n.value
             # `<marker> if <cond> else None`: the marker is set under <cond> (a local bound once stands for its definition)
             if isinstance(val, ast.IfExp) and isinstance(val.orelse, ast.Constant) and val.orelse.value is None:
@@ -263,9 +271,13 @@ def sym_eval(e: ast.AST, env: dict[str, object], text: str) -> object:
     returns Lin for ints, ('str', name) for the symbolic strings 'S' (whole), 'T' (tail), 'A' (head)"""
     if isinstance(e, ast.Constant) and isinstance(e.value, int) and not isinstance(e.value, bool):
         return Lin({"": e.value})
+    if not isinstance(e, ast.Constant) and _text(e) == text:
+        return env.get("<text>", ("str", "S"))  # (the consumed text, however it is spelled: a local, a slice content[pos:end])
+    if isinstance(e, ast.Constant) and isinstance(e.value, str) and repr(e.value) == text:
+        return env.get("<text>", ("str", "S"))
     if isinstance(e, ast.Name):
         if e.id == text:
-            return ("str", "S")
+            return env.get("<text>", ("str", "S"))
         if e.id in env:
             return env[e.id]
         raise Unknown(e.id)
@@ -370,6 +382,26 @@ def check_bookkeeping(run: Run) -> None:
             run.instance("R07.1b", where, "fence span: line/column are set from the span's own line arithmetic (literal zones carry no rewrite receipts; C05)", nontrivial=False)
             continue
         n_checked += 1
+        # the general position helper read in place: an if/else on "does the consumed text contain a newline" over a text whose
+        # length is the amount pos moves by - judged by the same symbolic evaluation as the regex-token site
+        amount_text = None
+        if isinstance(u, ast.AugAssign) and isinstance(u.op, ast.Add):
+            if isinstance(u.value, ast.Call) and _text(u.value.func) == "len" and len(u.value.args) == 1:
+                amount_text = _text(u.value.args[0])
+            elif isinstance(u.value, ast.Constant) and isinstance(u.value.value, int):
+                consts = [c for s_ in blk[: blk.index(u)] for c in ast.walk(s_) if isinstance(c, ast.Call) and isinstance(c.func, ast.Attribute) and c.func.attr in ("rpartition", "rfind", "rindex") and isinstance(c.func.value, ast.Constant) and isinstance(c.func.value.value, str) and len(c.func.value.value) == u.value.value]
+                if consts:
+                    amount_text = repr(consts[0].func.value.value)  # type: ignore[attr-defined]
+        elif isinstance(u, ast.Assign) and isinstance(u.value, ast.Name):
+            amount_text = f"content[pos:{u.value.id}]"
+        if amount_text is not None and any(isinstance(c, ast.Call) and isinstance(c.func, ast.Attribute) and c.func.attr in ("rpartition", "rfind", "rindex", "rsplit") and (_text(c.func.value) == amount_text or (isinstance(c.func.value, ast.Constant) and repr(c.func.value.value) == amount_text)) for s_ in blk[: blk.index(u)] for c in ast.walk(s_)):
+            try:
+                okg, whyg = _check_match_block(blk, u, amount_text)
+            except AnalysisError:
+                okg, whyg = False, ""
+            if okg:
+                run.instance("R07.1b", where, f"`{_text(u)}`: {whyg} (text {amount_text})", ok=True)
+                continue
         if isinstance(u, ast.AugAssign) and isinstance(u.op, ast.Add):
             # column += <same amount> in the same block, or a counter incremented in lockstep that is later added to column
             same = [s for s in blk if isinstance(s, ast.AugAssign) and isinstance(s.target, ast.Name) and s.target.id == "column" and isinstance(s.op, ast.Add) and _text(s.value) == val]
@@ -438,10 +470,9 @@ def _sym_exec(stmts: list[ast.stmt], env: dict[str, object], text: str) -> None:
             raise Unknown(_text(s))
 
 
-def _check_match_block(blk: list[ast.stmt], u: ast.stmt) -> tuple[bool, str]:
-    """symbolic check of the statements before `pos = match.end()` in its block"""
+def _check_match_block(blk: list[ast.stmt], u: ast.stmt, text: str = "matched_text") -> tuple[bool, str]:
+    """symbolic check of the statements before `pos = match.end()` (or any other update of pos by len(<text>)) in its block"""
     env_nl: dict[str, object] = {"line": Lin({"line": 1}), "column": Lin({"column": 1})}
-    text = "matched_text"
     before = blk[: blk.index(u)]
     # find the if/else that distinguishes tokens with and without newline
     split = None
@@ -487,9 +518,9 @@ def _check_match_block(blk: list[ast.stmt], u: ast.stmt) -> tuple[bool, str]:
             return False, f"after a token containing newlines line becomes `{env['line']}` instead of line + count"
         # plain branch (the token is one line: matched_text = T): column grows by len(matched_text), line stays
         envp: dict[str, object] = {k: v for k, v in env_nl.items() if k in ("line", "column")}
-        envp[text] = ("str", "T")
+        envp["<text>"] = ("str", "T")
         try:
-            _sym_exec(plain_body, envp, "<none>")
+            _sym_exec(plain_body, envp, text)
             ok_plain = _same_on_domain(envp["column"], Lin({"column": 1, "t": 1})) is True and _same_on_domain(envp["line"], Lin({"line": 1})) is True
         except Unknown:
             ok_plain = False
